@@ -605,12 +605,7 @@ Definition primary_b (n : option anode) (st : pst) : PR anode :=
 
 Definition filter_expr_b (n : option anode) (st : pst) : PR anode :=
   let* (o, st1) := primary_b n st in
-  if is_typ st1 ILBracket then
-    let* st2 := skip_item st1 ILBracket in
-    let* (c, st3) := pexpr (Some o) st2 in
-    let* st4 := skip_item st3 IRBracket in
-    Ok (AFilter o c, st4)
-  else Ok (o, st1).
+  pred_loop f pexpr o st1.
 
 Definition location_path_b (st : pst) : PR anode :=
   match typ st with
@@ -725,11 +720,8 @@ Proof.
   intros n st Hf. unfold filter_expr_b.
   pose proof (primary_post n st Hf) as Hp.
   do_post Hp o st1.
-  destruct (is_typ st1 ILBracket); [|leaf].
-  do_skip st2 H2. destruct H2 as [_ H2].
-  assert (Hp2 : post (m st2) (pexpr (Some o) st2)) by (apply Hexpr; lia).
-  do_post Hp2 c st3.
-  do_skip st4 H4. destruct H4 as [_ H4]. leaf.
+  eapply post_weaken; [|apply pred_loop_post with (B := f - 1)]; [lia| |lia|lia].
+  intros n0 st0 H0. apply Hexpr. lia.
 Qed.
 
 Lemma relpath_post : forall n st, m st + 1 <= f -> post (m st) (relpath_loop f pstep n st).
